@@ -75,6 +75,7 @@ type XOpts struct {
 	Arrays             bool
 	UserPtrs           bool
 	Unexported         bool // unexported fields (raw types only make sense with them)
+	ElemNested         bool // element structs of slices/arrays/maps may contain struct, *struct and embedded struct fields
 	ElemUnexported     bool // unexported fields inside the element structs of slices/arrays/maps (Pointerify keeps those)
 	DialsTags          bool
 	Desc               bool // dialsdesc tags
@@ -273,8 +274,25 @@ func (g *XGen) Struct(depth int) reflect.Type {
 		case o.StructElem && depth < o.MaxDepth && x < 50:
 			save, saveU := g.O.MaxDepth, g.O.Unexported
 			g.O.MaxDepth = depth + 1 // shallow element struct
+			if g.O.ElemNested && r.Chance(1, 2) {
+				// one more level inside the element: struct, *struct and embedded
+				// (pointer) struct fields of elements (never pointerified)
+				g.O.MaxDepth = depth + 2
+			}
 			g.O.Unexported = saveU || (g.O.ElemUnexported && r.Chance(1, 2))
 			el := g.Struct(depth + 1)
+			if g.O.ElemNested && g.O.Embedded && r.Chance(1, 3) {
+				// the element embeds a pointer to a struct of leaves (its promoted
+				// fields are plain, non-pointerified scalars)
+				g.O.MaxDepth = depth + 1
+				inner := g.Struct(depth + 1)
+				fs := make([]reflect.StructField, 0, el.NumField()+1)
+				for i := 0; i < el.NumField(); i++ {
+					fs = append(fs, el.Field(i))
+				}
+				fs = append(fs, reflect.StructField{Name: g.name(), Type: reflect.PtrTo(inner), Anonymous: true})
+				el = reflect.StructOf(fs)
+			}
 			g.O.MaxDepth, g.O.Unexported = save, saveU
 			switch r.Intn(4) {
 			case 0, 1:
